@@ -1,4 +1,5 @@
 import CvssVerif.Proofs.Decoders
+import CvssVerif.Proofs.Agree3
 import CvssVerif.Props.C07
 import CvssVerif.Props.C08
 /-
@@ -130,6 +131,35 @@ theorem v3_env_accepts_iff_source (s : Bytes) :
     simpa using this
   · intro h
     exact ⟨(V3.decode Level.environmental V3.Obj3.new s).1, by simp [h]⟩
+
+/-- the objects the v3 constructors of the source build agree with the model's fresh object on everything their level reads -/
+theorem constructors_agree :
+    V3.AgreeOn .base Gen.D3.NewBase V3.Obj3.new ∧ V3.AgreeOn .temporal Gen.D3.NewTemporal V3.Obj3.new := by
+  have h := constructors_3
+  refine ⟨⟨h.2.2.2.2.2.2.1, fun m hm => ⟨h.2.2.2.2.2.2.2.1 m (by rw [← V3.msOf_base]; exact hm), h.2.2.2.2.2.2.2.2 m⟩⟩,
+          ⟨h.2.2.2.1, fun m hm => ⟨h.2.2.2.2.1 m (by rw [← V3.msOf_temporal]; exact hm), h.2.2.2.2.2.1 m⟩⟩⟩
+
+/-- **C07 carried to the source text, all three decoders**: the translated `NewX().Decode(s)` returns the object and no error
+    exactly for the well-formed v3 vectors of its level, and never panics -/
+theorem v3_accepts_iff_source (s : Bytes) :
+    ((∃ o, Gen.D3.Base_Decode Gen.D3.NewBase s = some (o, (true, none))) ↔ Spec3.wf3 .base s = true) ∧
+    ((∃ o, Gen.D3.Temporal_Decode Gen.D3.NewTemporal s = some (o, (true, none))) ↔ Spec3.wf3 .temporal s = true) ∧
+    ((∃ o, Gen.D3.Environmental_Decode Gen.D3.NewEnvironmental s = some (o, (true, none))) ↔ Spec3.wf3 .environmental s = true) := by
+  refine ⟨?_, ?_, v3_env_accepts_iff_source s⟩
+  · rw [Base_Decode_3, ← C07.accept3_iff, ← V3.decode_agree constructors_agree.1 s]
+    constructor
+    · rintro ⟨o, h⟩
+      have := congrArg (fun r => r.map (fun x => x.2.2)) h
+      simpa using this
+    · intro h
+      exact ⟨_, by simp only [h]; rfl⟩
+  · rw [Temporal_Decode_3, ← C07.accept3_iff, ← V3.decode_agree constructors_agree.2 s]
+    constructor
+    · rintro ⟨o, h⟩
+      have := congrArg (fun r => r.map (fun x => x.2.2)) h
+      simpa using this
+    · intro h
+      exact ⟨_, by simp only [h]; rfl⟩
 
 /-- **C08 carried to the source text** (all three v2 decoders) -/
 theorem v2_accepts_iff_source (s : Bytes) :
